@@ -111,6 +111,10 @@ def make_contests(cset, limits):
             a.margin = 0.6 - 0.15 * j  # every assertion has its own margin, hence its own bound u
             if k == "k4":
                 a.assorter.tally_pool_means = {"P": 0.8}
+            if KINDS[k]["audit"] == Audit.AUDIT_TYPE.POLLING:
+                # the same objects were set up for a comparison audit before the contest fell back to polling: the test
+                # still holds the comparison bound, and set_p_values has to configure it for the data it is given
+                a.test.u = 2 / (2 - a.margin / a.assorter.upper_bound)
     return cons
 
 
